@@ -52,7 +52,7 @@ func fixOriginFuncToTrampoline(origin uintptr, trampoline uintptr, jumpInstSize 
 		return 0, err
 	}
 
-	if len(fixedData) < len(fixOriginData) {
+	if fixedDataSize < len(fixOriginData) {
 		// 追加跳转到原函数指令到修复后指令的末尾
 		// append jump back to origin func position where next to the broken instructions
 		jumpBackData := jmpToOriginFunctionValue(
